@@ -22,3 +22,9 @@ def build(run, with_vertex=True):
     PT.extract(run)
     PT.equiv_lemmas(run)
     PT.ladder_equiv(run)
+    if with_vertex:
+        # smearing DOS (Python): total = weighted kernel sum, kernels >= 0 and normalised, projections add up
+        from contracts import py_dos as PD
+        run.py_contract(PD.PF_, "TotalDos._get_density_of_states_at_freq", lambda: PD.total_dos_at_freq(run), PD.replay_smearing)
+        PD.kernel_lemmas(run)
+        run.py_contract(PD.PF_, "ProjectedDos._run_smearing_method", lambda: PD.projected_dos_smearing(run), PD.replay_smearing)
